@@ -1140,6 +1140,26 @@ def make_check_expr(
                             # assigning this value to a reusable local variable.
                             hint_tree.pith_curr_assign_expr
                         )
+
+                        # If this expression is *NOT* a valid Python identifier
+                        # (e.g., the item of a parent container, an assignment
+                        # expression), localize the current pith to its local
+                        # variable *BEFORE* validating this pith. Why? Because
+                        # validators are permitted to derive the names of
+                        # temporary local variables from this expression (e.g.,
+                        # "IsAttr" via "{obj}_isattr_{attr_name}"), which would
+                        # otherwise generate syntactically invalid code.
+                        if not hint_curr_expr.isidentifier():
+                            hint_tree.func_curr_code += (
+                                CODE_PEP593_VALIDATOR_METAHINT_format(
+                                    indent_curr=hint_tree.indent_curr,
+                                    hint_child_placeholder=(
+                                        f'({hint_tree.pith_curr_assign_expr}) '
+                                        f'is {hint_tree.hint_curr.pith_var_name}'
+                                    ),
+                                )
+                            )
+                            hint_curr_expr = hint_tree.hint_curr.pith_var_name
                     # Else, this metahint is unignorable. In this case...
                     else:
                         # Python expression yielding the value of the current
